@@ -184,6 +184,8 @@ CONFIGS = {
 }
 DEPTH = {'quick': 6, 'thorough': 9}
 DEVK = {'quick': 1, 'thorough': 2}
+DEV_KINDS = ('coop', 'lateclose', 'silent', 'refuse')
+QUICK_DEV = (2, 10)      # quick tier: k deviations within the first n steps
 
 
 def run(tier, seed, prop=PROP, harness=None):
@@ -194,8 +196,8 @@ def run(tier, seed, prop=PROP, harness=None):
     dev = []
     for cfg in CONFIGS[tier]:
         explore.bfs(h, cfg, DEPTH[tier], col, seed=seed, result=res, merge_all=(tier == 'thorough'))
-        for kind in ('coop', 'silent', 'refuse'):
-            kk, win = (2, 8) if (tier == 'quick' and kind != 'coop') else (DEVK[tier], None)
+        for kind in DEV_KINDS:
+            kk, win = QUICK_DEV if tier == 'quick' else (DEVK[tier], None)
             st = explore.deviations(h, cfg, kk, 45, col, script_kw={'kind': kind}, window=win)
             dev.append({'cfg': cfg, 'script': kind, 'executions': st['executions'], 'events': st['events'], 'k': st['k'], 'window': st['window']})
     explore.close_pool()
